@@ -322,7 +322,7 @@ theorem inv_backup {st : St} (h : Inv st) : Inv (backup st).1 := by
       · subst hb; exact hi
 
 theorem inv_restore {st : St} (h : Inv st) (b : Nat) (force : Bool) : Inv (restore st b force).1 := by
-  unfold restore
+  unfold restore restoreWith
   simp only
   by_cases g0 : b = 0
   · rw [if_pos g0]; exact h.congr rfl rfl rfl rfl rfl
